@@ -33,4 +33,20 @@ def goAnd := bitop Nat.land
 def goOr := bitop Nat.lor
 def goXor := bitop Nat.xor
 
+
+/-! byte buffers (`[]byte` as `List Int` with entries in 0..255) for the byte-buffer functions go2lean translates -/
+
+/-- `buf[i]` (an out-of-range index panics in Go: see the `_safe` companions; here it reads 0) -/
+def byteAt (l : List Int) (i : Nat) : Int := l.getD i 0
+/-- `binary.BigEndian.Uint16(buf[i:])` -/
+def be16At (l : List Int) (i : Nat) : Int := byteAt l i * 256 + byteAt l (i + 1)
+/-- `binary.BigEndian.Uint32(buf[i:])` -/
+def be32At (l : List Int) (i : Nat) : Int :=
+  ((byteAt l i * 256 + byteAt l (i + 1)) * 256 + byteAt l (i + 2)) * 256 + byteAt l (i + 3)
+/-- `binary.BigEndian.PutUint16(buf[i:], v)` for `0 ≤ v < 2^16` -/
+def putBE16 (l : List Int) (i : Nat) (v : Int) : List Int := (l.set i (v / 256 % 256)).set (i + 1) (v % 256)
+/-- `binary.BigEndian.PutUint32(buf[i:], v)` for `0 ≤ v < 2^32` -/
+def putBE32 (l : List Int) (i : Nat) (v : Int) : List Int :=
+  (((l.set i (v / 16777216 % 256)).set (i + 1) (v / 65536 % 256)).set (i + 2) (v / 256 % 256)).set (i + 3) (v % 256)
+
 end LLRP.GoInt
